@@ -384,13 +384,29 @@ def _job_conc(arg):
         crash = dict(NO_CRASH, variant="kill", k=k, op="Open", window="Concurrent")
     else:
         crash = dict(NO_CRASH, k=k)
-    head = _trace_events(ops, crash if code == 137 else None, pre, [])
-    bev = [r["ev"] for r in recsb if r.get("ph") == "e"]
-    if codeb == -9 or len(bev) < 2:
-        bev = bev[:1] + [dict(bops[0], out="error:Timeout" if codeb == -9 else f"error:Exit{codeb}", troublesome=False)]
-    for e in bev:
-        e["phase"] = "concurrent"
-    head += bev
+    # one time line for both processes, in order of completion; the second writer's store is "inflight" from its begin on
+    # (it may or may not be visible to the first process), the interrupted operation and the Crash marker follow the
+    # last record of the first process
+    line = []
+    a_events = _trace_events(ops, crash if code == 137 else None, pre, [])
+    a_times = [r["t"] for r in recs if r.get("ph") == "e"]
+    t_last = max([r["t"] for r in recs if "t" in r], default=0.0)
+    for i, e in enumerate(a_events):
+        line.append((a_times[i] if i < len(a_times) and e.get("out") != "crash" and e["e"] != "Crash" else t_last + 1e-6 * (i + 1), e))
+    for r in recsb:
+        if r.get("ph") == "b" and r["i"] == 1:
+            line.append((r["t"], dict(bops[0], out="inflight", troublesome=False)))
+        elif r.get("ph") == "e":
+            line.append((r["t"], dict(r["ev"])))
+    done_b = [r for r in recsb if r.get("ph") == "e"]
+    if codeb == -9 or len(done_b) < 2:
+        line.append((time.time(), dict(bops[0], out="error:Timeout" if codeb == -9 else f"error:Exit{codeb}", troublesome=False)))
+    head = []
+    for _, e in sorted(line, key=lambda x: x[0]):
+        e.setdefault("phase", "concurrent")
+        if e["e"] == "Store":
+            e.setdefault("troublesome", False)
+        head.append(e)
     crashed = crash["m"] if crash["op"] == "Store" else None
     fu = [o for o in fu if o.get("m") != crashed]
     case = {"kind": "concurrent", "schedule": {"race": "none", "second_writer": other}, "workload": ops, "crash": crash,
